@@ -186,24 +186,24 @@ var thriftWriterRows = map[string]string{
 }
 
 var thriftReaderRows = map[string]string{
-	"ReadBool":         "[u8]",
-	"ReadInt8":         "[u8:val]",
-	"ReadInt16":        "[be16:val]",
-	"ReadInt32":        "[be32:val]",
-	"ReadInt64":        "[be64:val]",
-	"ReadDouble":       "[be64:f64]",
-	"ReadBinary":       "[be32 bytes] | [be32 bytes] | [be32]", // rendered after dedup below
-	"ReadStructBegin":  "[]",
-	"ReadStructEnd":    "[]",
-	"ReadFieldBegin":   "[u8:Type be16:ID] | [u8:Type]",
-	"ReadFieldEnd":     "[]",
-	"ReadListBegin":    "[u8:Type be32:Length]",
-	"ReadListEnd":      "[]",
-	"ReadSetBegin":     "[u8:Type be32:Length]",
-	"ReadSetEnd":       "[]",
-	"ReadMapBegin":     "[u8:KeyType u8:ValueType be32:Length]",
-	"ReadMapEnd":       "[]",
-	"ReadEnvelopeEnd":  "[]",
+	"ReadBool":        "[u8]",
+	"ReadInt8":        "[u8:val]",
+	"ReadInt16":       "[be16:val]",
+	"ReadInt32":       "[be32:val]",
+	"ReadInt64":       "[be64:val]",
+	"ReadDouble":      "[be64:f64]",
+	"ReadBinary":      "[be32 bytes] | [be32 bytes] | [be32]", // rendered after dedup below
+	"ReadStructBegin": "[]",
+	"ReadStructEnd":   "[]",
+	"ReadFieldBegin":  "[u8:Type be16:ID] | [u8:Type]",
+	"ReadFieldEnd":    "[]",
+	"ReadListBegin":   "[u8:Type be32:Length]",
+	"ReadListEnd":     "[]",
+	"ReadSetBegin":    "[u8:Type be32:Length]",
+	"ReadSetEnd":      "[]",
+	"ReadMapBegin":    "[u8:KeyType u8:ValueType be32:Length]",
+	"ReadMapEnd":      "[]",
+	"ReadEnvelopeEnd": "[]",
 }
 
 func dedupShapes(s string) string {
@@ -780,7 +780,10 @@ func checkContainers(c *core.Ctx, l *core.Ledger, m *wireModel) {
 			Detail: "framing sequence " + got + "; expected " + dedupShapes(e.want) + "; events " + normSeqs(m.WSeqs(f))})
 	}
 	// header payloads: type byte from ValueType()/KeyType(), count from Size(), field type from Value.Type()
-	hdr := []struct{ name string; contains []string }{
+	hdr := []struct {
+		name     string
+		contains []string
+	}{
 		{"writeField", []string{"u8(v.Type($1.Value))", "be16($1.ID)"}},
 		{"writeMap", []string{"u8(ml.KeyType()) u8(ml.ValueType()) be32(ml.Size())"}},
 		{"writeSet", []string{"u8(vl.ValueType()) be32(vl.Size())"}},
